@@ -69,7 +69,7 @@ def run_tlc(module, cfg_text, workdir, out_path, timeout, workers=None, extra=No
     with open(cfg, 'w') as fh:
         fh.write(cfg_text)
     meta = os.path.join(workdir, 'meta_' + os.path.basename(cfg))
-    cmd = ['timeout', str(timeout), 'tlc', '-workers', str(workers or NPROC), '-metadir', meta, '-config', cfg] + (extra or []) + [module + '.tla']
+    cmd = ['timeout', str(timeout), 'tlc', '-noGenerateSpecTE', '-workers', str(workers or NPROC), '-metadir', meta, '-config', cfg] + (extra or []) + [module + '.tla']
     t0 = time.time()
     with open(out_path, 'w') as fh:
         r = subprocess.run(cmd, cwd=SPEC, stdout=fh, stderr=subprocess.STDOUT)
@@ -113,6 +113,8 @@ def family_cfg(fam, tier, devs=()):
 
 # ---------------------------------------------------------------------------------------------------
 TAGS = json.load(open(os.path.join(SPEC, 'tags.json')))
+TAGS.setdefault('br', dict(guard={}, suff={}, err_guard=[], field={}, event_all_fields={}, finding={}))
+TAGS.setdefault('det', dict(guard={}, suff={}, err_guard=[], field={}, event_all_fields={}, finding={}))
 TAGS.setdefault('ante', dict(guard={}, suff={}, err_guard=[], field={}, event_all_fields={}, finding={}))
 TAGS.setdefault('fmt', dict(guard={}, suff={}, err_guard=[], field={}, event_all_fields={}, finding={}))
 
@@ -158,6 +160,27 @@ BRIDGE_KEYED = ('cfg', 'l1seq', 'nextOut', 'outs', 'batch', 'lastFinal', 'pairs'
 
 def attribute(m, mod='l1'):
     """tags of one mismatch record (from the Go walker or from the trace validator); mod selects the tag table."""
+    if mod == 'br':
+        # composite model: the event says which chain it belongs to; fields are prefixed with l1. / l2.
+        ev = m.get('event') or {}
+        sub = 'l1' if ev.get('chain') == 'L1' else 'l2'
+        m2 = dict(m, event=ev.get('e') or {})
+        fs = []
+        for f in m.get('fields') or []:
+            if f.startswith('l1.') or f.startswith('l2.'):
+                if f[:2] == sub:
+                    fs.append(f[3:])
+                else:
+                    fs.append('?otherchain.' + f)
+            else:
+                fs.append(f)
+        m2['fields'] = fs
+        tags, why = attribute(m2, sub)
+        if tags & {'C01', 'C06', 'C07', 'C09', 'C10', 'C02'} or any(f.split('.')[0] in ('deps', 'wds', 'trees', '?otherchain') for f in fs):
+            tags.add('C08')        # the cross-chain equation is exposed to every single-module ledger fault
+        if any(f.split('.')[0] in ('wds', 'trees') for f in fs):
+            tags.add('C04')
+        return tags, '[' + sub + '] ' + why
     T = TAGS[mod]
     ev = m.get('event') or {}
     et = ev.get('type', '?')
@@ -190,6 +213,9 @@ def attribute(m, mod='l1'):
         if mod == 'val' and et == 'EndBlock' and (m.get('spec_resp') or {}).get('planned'):
             tags.add('C14')      # the block that applies an executor-change plan
         why = '%s of %s differs in %s' % ('post-state' if m['kind'] == 'state' else 'response', et, ','.join((m.get('fields') or [])[:6]))
+    elif m['kind'] == 'replicas':
+        tags.add('C18')
+        why = 'replicas disagree on %s after %s (history from %s, path %s position %s)' % (m['fields'][0], et, m['detail'].get('source'), m['detail'].get('path'), m['detail'].get('pos'))
     elif m['kind'] == 'case':
         if m.get('stated', True):
             tags.add('C20')
@@ -303,8 +329,61 @@ def run_cases(name, tier, seed, work):
     return dict(name=name, tlc=tlc, walk=walk, meta=dict(tier=tier), scale='-', walker=fam['checker'])
 
 
+def run_replicas(name, tier, seed, work):
+    """C18: Replicas.tla (Agreement of K replicas applying one log) is checked by TLC; behaviours of the other model
+    families (random paths through the graphs TLC emits) are executed on K fresh instances each, one trace line per
+    log position with the store digests and output hashes of all replicas, and TLC checks Agreement on that trace."""
+    fam = F.FAMILIES[name]
+    c = fam['consts'][tier]
+    out0 = os.path.join(work, 'replicas.tlc.out')
+    r0 = run_tlc(fam['module'], 'SPECIFICATION Spec\nCONSTANTS K = 3  LogLen = 3  Nondet = FALSE\nINVARIANT Agreement\nCHECK_DEADLOCK FALSE\n', work, out0, 120, workers=4)
+    if r0['violated'] or r0['errors'] or r0['rc'] != 0:
+        raise Undecided('TLC failed on Replicas.tla: %s' % r0['tail'][-10:])
+    log('[%s] E1: Replicas.tla: %d states, Agreement holds for K=3, log length 3' % (name, r0['distinct']))
+    lines = disagreements = 0
+    by_type, samples, mism, src_stats = {}, [], [], []
+    for src, kind in fam['sources'][tier]:
+        sf = F.FAMILIES[src]
+        out = os.path.join(work, src + '.tlc.out')
+        res = run_tlc(sf['module'], family_cfg(dict(sf, invariants=[], properties=[]), 'quick'), work, out, sf['timeout']['quick'])
+        if res['errors'] or res['rc'] != 0:
+            raise Undecided('TLC failed while emitting the graph of %s' % src)
+        trace = os.path.join(work, src + '.det.ndjson')
+        rr = subprocess.run([VH, 'det-run', '--edges', out, '--kind', kind, '--paths', str(c['paths']), '--len', str(c['length']), '--replicas', str(c['replicas']),
+                             '--seed', str(seed), '--scale', sf['scale'], '--out', trace], stdout=subprocess.PIPE, stderr=subprocess.STDOUT, text=True, timeout=fam['timeout'][tier] * 2)
+        os.remove(out)
+        if rr.returncode != 0:
+            raise Undecided('det-run failed on %s: %s' % (src, rr.stdout[-2000:]))
+        st = json.loads(rr.stdout.strip().splitlines()[-1])
+        tout = os.path.join(work, src + '.trace.tlc.out')
+        rt = run_tlc(fam['trace_module'], 'SPECIFICATION Spec\nCONSTANT TraceFile = "%s"\n' % trace, work, tout, fam['timeout'][tier], workers=1)
+        summary = None
+        for line in open(tout, errors='replace'):
+            if line.startswith('"REPLICAS '):
+                summary = json.loads(json.loads(line)[9:])
+            elif line.startswith('"DISAGREE '):
+                d = json.loads(json.loads(line)[9:])
+                mism.append(dict(kind='replicas', event=d['event'], fields=['digest' if len(set(d['digests'])) > 1 else 'output'], impl_ok=True, spec_ok=True,
+                                 detail=dict(source=src, path=d['path'], pos=d['pos'], digests=d['digests'], outs=d['outs']), path=[]))
+        if rt['rc'] != 0 or summary is None or summary['lines'] != st['Lines'] or st['Lines'] == 0:
+            raise Undecided('trace validation of %s did not complete (%s, %s)' % (src, summary, rt['tail'][-5:]))
+        lines += summary['lines']
+        disagreements += summary['disagreements']
+        for k, v in st['ByType'].items():
+            by_type[k] = by_type.get(k, 0) + v
+        with open(trace) as fh:
+            samples.append(json.loads(fh.readline()))
+        src_stats.append(dict(source=src, paths=st['Paths'], positions=st['Lines'], replicas=st['Replicas'], disagreements=summary['disagreements']))
+        log('[%s] %s: %d paths, %d log positions x %d replicas, %d disagreements (checked by TLC on the recorded trace)' % (name, src, st['Paths'], st['Lines'], st['Replicas'], summary['disagreements']))
+    walk = dict(states=r0['distinct'], edges=lines, edges_ok=lines, replayed=lines, unreached_states=0, skipped_subtrees=0, by_type=by_type,
+                mismatches=mism[:50], n_mismatch=disagreements, samples=samples[:3], findings={}, finding_samples={}, sources=src_stats)
+    return dict(name=name, tlc=dict(r0), walk=walk, meta=dict(tier=tier), scale='-', walker='det-run')
+
+
 def run_family(name, tier, seed, work):
     fam = F.FAMILIES[name]
+    if fam.get('kind') == 'replicas':
+        return run_replicas(name, tier, seed, work)
     if fam.get('kind') == 'formats':
         return run_formats(name, tier, seed, work)
     if fam.get('kind') == 'cases':
@@ -334,6 +413,8 @@ def run_family(name, tier, seed, work):
     os.remove(out)
     log('[%s] E2: %d states, %d edges replayed (%d succeeding), %d mismatches, %.0fs' % (
         name, rep['states'], rep['replayed'], rep['edges_ok'], rep['n_mismatch'], time.time() - t0))
+    if rep['mismatches'] and rep['mismatches'][0]['kind'] == 'init':
+        raise Undecided('the initial state of the model of %s differs from a fresh chain in %s' % (name, rep['mismatches'][0].get('fields')))
     if rep['unreached_states'] or rep['replayed'] == 0:
         raise Undecided('walker could not reach %d states of %s' % (rep['unreached_states'], name))
     return dict(name=name, tlc=res, walk=rep, meta=meta, scale=fam['scale'], walker=fam['walker'])
